@@ -184,14 +184,16 @@ def extract(verbose=False):
         os.rename(tmp, out)
     except OSError:
         shutil.rmtree(tmp, ignore_errors=True)
-    # keep the cache small: the 12 most recently used trees, and never one used within the last hour
-    # (several checks may run concurrently on different scratch copies: positive controls, tools/try_seed.sh)
+    # keep the cache bounded (about 20 MB per tree): beyond the 12 most recently used trees, one not used for an hour
+    # goes; beyond 100 (scratch copies are keyed by their own path, so nothing is shared between runs and an entry is
+    # needed only while its run lasts) one not used for ten minutes goes - never a tree a concurrent run may still be loading
     try:
         now = time.time()
         ds = sorted((d for d in os.listdir(cache_root) if ".tmp" not in d),
                     key=lambda d: os.path.getmtime(os.path.join(cache_root, d)))
         for d in ds[:-12]:
-            if now - os.path.getmtime(os.path.join(cache_root, d)) > 3600:
+            age = now - os.path.getmtime(os.path.join(cache_root, d))
+            if age > 3600 or (len(ds) > 100 and d in ds[:-100] and age > 600):
                 shutil.rmtree(os.path.join(cache_root, d), ignore_errors=True)
         for d in os.listdir(cache_root):
             if ".tmp" in d and now - os.path.getmtime(os.path.join(cache_root, d)) > 3600:
